@@ -18,11 +18,11 @@ func init() { register("C02", checkC02) }
 type writerShape struct {
 	schedule, send, run *ssa.Function // implementations of Writer.Schedule / Send / Run in the module
 	jobType             types.Type
-	logGet              *core.Call // messageLog.Get in run, or in the helper of run that serves a job read from the log
+	logGet              *core.Call      // messageLog.Get in run, or in the helper of run that serves a job read from the log
 	logFn               *ssa.Function   // the function that holds logGet
 	logSite             ssa.Instruction // the place of run through which logGet runs (logGet itself, or the call of the helper)
-	recvAlloc           *ssa.Alloc // local holding the received job in run
-	fanout              *core.Call // the per-job fan-out call in the log branch (takes the publish read back)
+	recvAlloc           *ssa.Alloc      // local holding the received job in run
+	fanout              *core.Call      // the per-job fan-out call in the log branch (takes the publish read back)
 }
 
 func (c *Ctx) implOf(ru *report.Rule, pkg, iface, method string) *ssa.Function {
